@@ -25,7 +25,7 @@ out.append("* %d properties claimed (%s), C07 not applicable." % (len(checks), "
 out.append("* Harnesses (Go lines): " + ", ".join("%s %d" % kv for kv in loc.items()) + "; shared: simcore, simdisk, simapp, chaingen.")
 out.append("* /repo: %d hook commits (build tag `verif`, add-only), %d `fix:` commits (each a genuine defect found by a check on the unchanged tree; the repo's test suite passes with them, tag off)." % (len(hooks), len(fixes)))
 out.append("* KNOWN_FINDINGS.txt: %d `fixed:` entries, %d `known:` entries (%s) - each printed as KNOWN-FINDING on the runs that meet it." % (len(fixed), len(known), ", ".join("%s %d" % kv for kv in sorted(byprop.items()))))
-out.append("* Seeded changes written by sub-agents that saw only the property text: %d verified, %d detected by a registered check within its quick/extended budget (table in 13.5)." % (len(metas), det))
+out.append("* Seeded changes written by sub-agents that saw only the property text: %d verified, %d detected by a registered check within its quick/extended budget (table in 13.5; `C03-commit-step-round-skip` is not a sub-agent's change but the revert of fix b9ebead)." % (len(metas), det))
 out.append("")
 out.append("| property | engines as registered (quick s / thorough s) | level claimed |")
 out.append("|---|---|---|")
